@@ -1377,10 +1377,4 @@ theorem step_forward (s s' : Ctl) (hi : Inv s) (h : Step s s') (t : Nat) :
     (∀ d, d ∈ (s.tasks t).deps → d ∈ (s'.tasks t).deps) :=
   step_fwd hi h t
 
-#print axioms reachable_inv
-#print axioms step_forward
-#print axioms failure_stops
-#print axioms stopped_final
-#print axioms runSchedule_reachable
-#print axioms final_perm
 end CueVerif.Flow
